@@ -278,6 +278,13 @@ def exec_step(step, sess, chains, audit):
             for k, v in cfg.data.items():
                 if k not in ('tasks', 'uses', 'excluded_tasks', 'for_namespaces'):
                     poison(v)
+        # ... and every mutable parameter value the tasks of chain 1 hold (also values that fell back to a mutable DEFAULT of the declaration)
+        for t_ in ch1.tasks.values():
+            try:
+                for p_ in t_.params._parameters.values():
+                    poison(p_.value)
+            except Exception:
+                pass
         obs['ctx_after_poison'] = canon_ctx(ctx)
         obs['snapshot2_after_poison'] = snapshot(c2.chain(), data_dir)
         c3 = mk()
